@@ -231,7 +231,13 @@ fn run_case(case: &Value) -> Vec<Value> {
                 let e = ex[x + k].clone();
                 let _order = order.clone();
                 handles.push(tokio::task::spawn_local(async move {
-                    let res = client.get("http://origin.test/x").send().await;
+                    let res = match tokio::time::timeout(Duration::from_secs(120), client.get("http://origin.test/x").send()).await {
+                        Ok(r) => r,
+                        Err(_) => {
+                            srv.borrow_mut().events.push(json!({"ev":"Fail","status":0,"err":"no response within 120 s of virtual time"}));
+                            return;
+                        }
+                    };
                     match res {
                         Err(err) => {
                             srv.borrow_mut().events.push(json!({"ev":"Fail","status":0,"err":format!("{err:?}").chars().take(60).collect::<String>()}));
@@ -246,7 +252,15 @@ fn run_case(case: &Value) -> Vec<Value> {
                                 srv.borrow_mut().events.push(json!({"ev":"Dropped","x":xx}));
                                 return;
                             }
-                            match r.body().limit(64 << 20).await {
+                            let read = tokio::time::timeout(Duration::from_secs(120), r.body().limit(64 << 20)).await;
+                            let read = match read {
+                                Ok(x) => x,
+                                Err(_) => {
+                                    srv.borrow_mut().events.push(json!({"ev":"Body","x":xx.max(1).min(99),"outcome":"hang","n":0,"ok":false}));
+                                    return;
+                                }
+                            };
+                            match read {
                                 Ok(b) => {
                                     let ok = b.iter().enumerate().all(|(k, &v)| v == pat(xx, k));
                                     srv.borrow_mut().events.push(json!({"ev":"Body","x":xx.max(1).min(99),"outcome":"ok","n":b.len(),"ok":ok}));
